@@ -50,6 +50,7 @@ struct Conn {
 }
 
 struct World {
+    closed_by_server: u32,
     /// clients that sent an invalid header and stay connected without reading or writing
     zombies: Vec<Client>,
     port: u16,
@@ -85,7 +86,6 @@ impl World {
                 c.noop_sent = true;
             }
         }
-        let expected = self.limit.min(self.open.len());
         let poll = |w: &mut World| {
             for c in w.open.iter_mut() {
                 c.cl.read_available();
@@ -93,14 +93,28 @@ impl World {
                     c.served = true;
                 }
             }
+            // a served connection that the server has closed meanwhile (receive timeout of the idle scenarios)
+            // no longer holds a slot: it is not "being served at once" with the others
+            let mut i = 0;
+            while i < w.open.len() {
+                if w.open[i].served && (w.open[i].cl.eof || w.open[i].cl.reset) {
+                    let c = w.open.remove(i);
+                    c.cl.close();
+                    w.closed_by_server += 1;
+                } else {
+                    i += 1;
+                }
+            }
             w.open.iter().filter(|c| c.served).count()
         };
         let mut served = poll(self);
+        let mut expected = self.limit.min(self.open.len());
         for round in 0..2 {
             let t0 = Instant::now();
             while served < expected && t0.elapsed() < Duration::from_secs(5) {
                 std::thread::sleep(Duration::from_micros(200));
                 served = poll(self);
+                expected = self.limit.min(self.open.len());
             }
             if served >= expected {
                 break;
@@ -232,6 +246,7 @@ pub fn run_case(case: &C17Case) -> CaseReport {
         }
     };
     let mut w = World {
+        closed_by_server: 0,
         zombies: vec![],
         port: server.port,
         limit: case.limit as usize,
